@@ -157,6 +157,10 @@ func run(c *core.Ctx) {
 			each("models=1/value-ladder", []ModelSpec{{Mesh: fmt.Sprintf("W%d", r), Mat: "M", TRS: "T"}})
 		}
 	}
+	for r := range f32Ladder {
+		each("models=1/transform-ladder", []ModelSpec{{Mesh: "A", Mat: "-", TRS: fmt.Sprintf("L%d", r)}})
+	}
+	c.Bound("menu.transforms.value_ladder", fmt.Sprintf("node translation, scale and one rotation component over %d float32 values (tiny, huge, both zeros)", len(f32Ladder)))
 	c.Bound("menu.meshes.value_ladder", fmt.Sprintf("%d float32 values (both zeros, subnormals, every binade, integer-width borders, decimal powers) through every attribute component of a 4-vertex mesh", len(f32Ladder)))
 	c.Bound("models=1", "complete")
 
